@@ -204,47 +204,9 @@ def run(ctx, res):
                           "a damaged header makes the read run past the mapping" % (callee, ", ".join(missing)), f.loc(e.node), p.describe(f))
 
     # ---- R2 --------------------------------------------------------------------------
-    res.floor("C19.R2", 3)
-    bi = prog.need("block_init", "mtbl/block.c")
-    res.saw(bi)
-    evb = APE.run(prog, cg, bi, bound=APE.BOUND)
-    szp = bi.params[1]["name"]
-    for p in evb.paths:
-        if p.end != "exit":
-            continue
-        sz = [e for e in p.events if e.kind == "store" and e.a.endswith("->size")]
-        final = sz[-1].b if sz else None
-        small = p.cons.get((szp, "#4"))
-        ro = None
-        for e in p.events:
-            if e.kind == "branch" and e.node is not None:
-                c = strip(e.node)
-                if c["k"] == "BinaryOperator" and c.get("op") in APE.OPSETS:
-                    l, r = canon(c["kids"][0]), canon(c["kids"][1])
-                    if l.endswith("->restart_offset") and r == "(%s-#4)" % szp:
-                        ro = e.b
-                    elif r.endswith("->restart_offset") and l == "(%s-#4)" % szp:
-                        ro = APE.mirror(e.b)
-        if final == ("c", 0):
-            res.ok("C19.R2", site(bi, "size:=0"), "inconsistent block marked empty")
-        else:
-            good = small is not None and LT not in small and ro is not None and GT not in ro
-            res.check(good, "C19.R2", site(bi, "size-kept"), "size kept only when size >= 4 and restart array starts inside the block",
-                      "block_init keeps the size although the restart array may start outside the block (size>=4: %s, restart_offset<=size-4: %s)"
-                      % (sorted(small) if small else None, sorted(ro) if ro else None), bi.loc(bi.body), p.describe(bi))
-    bii = prog.need("block_iter_init", "mtbl/block.c")
-    res.saw(bii)
-    evi = APE.run(prog, cg, bii, bound=APE.BOUND)
-    seen = False
-    for p in evi.paths:
-        for (a, b), v in p.cons.items():
-            if re.match(r"^\w+->size@\d+$", a) and b == "#8":
-                if LT in v:
-                    seen = True
-                    res.check(p.end == "noreturn", "C19.R2", site(bii, "size<8"), "a block shorter than 8 bytes stops the process",
-                              "block_iter_init continues with a block shorter than 8 bytes", bii.loc(bii.body), p.describe(bii))
-    if not seen:
-        res.bad("C19.R2", site(bii, "size<8"), "block_iter_init does not refuse blocks shorter than 8 bytes", bii.loc(bii.body))
+    # decided on bytes (rules/readrule.py): the real block reader is interpreted on byte strings that are not blocks
+    from . import readrule
+    readrule.malformed(ctx, res, "C19.R2")
 
 
     # ---- properties this one rests on (re-run here, labelled <this>.D.<rule>) ------------------
